@@ -140,10 +140,67 @@ func (e *Engine) observeWith(name string, o observer, m Model, lenToo bool, pool
 			}
 		}
 	}
+	// Reverse for requests instantiated from the two most recent patterns, against the documented matching rules applied to
+	// the model's route set: an observer answers from the state it stands for, whichever entry point is asked
+	type probe struct {
+		mm         string
+		host, path string
+		want       *fox.Route // the route a direct match must give; nil when nothing may be yielded
+		judged     bool
+	}
+	var probes []probe
+	for i := len(pool) - 1; i >= 0 && i >= len(pool)-2; i-- {
+		host, path, ok := Probe(pool[i])
+		if !ok {
+			continue
+		}
+		for _, mm := range methods {
+			var pats []string
+			for _, k := range m.Keys() {
+				if k.M == mm {
+					pats = append(pats, k.P)
+				}
+			}
+			res, ok := ref.LookupAll(pats, ref.StripHost(host), path)
+			if !ok {
+				continue
+			}
+			pr := probe{mm: mm, host: host, path: path}
+			switch {
+			case res.Route >= 0 && !res.Tsr:
+				pr.want, pr.judged = m[Key{mm, pats[res.Route]}].Route, true
+			case res.Route < 0:
+				pr.judged = true
+			}
+			if !pr.judged {
+				continue // a trailing-slash recommendation: what is reported depends on the route's options
+			}
+			probes = append(probes, pr)
+			rte, tsr := o.Reverse(mm, host, path)
+			if pr.want != nil && (rte != pr.want || tsr) {
+				return fail("Reverse(%s, %q, %q) = %s tsr=%v, the matching rules select %s", mm, host, path, ptr(rte), tsr, ptr(pr.want))
+			}
+			if pr.want == nil && rte != nil && !tsr {
+				return fail("Reverse(%s, %q, %q) = %s as a direct match, the model has no route matching that request", mm, host, path, ptr(rte))
+			}
+		}
+	}
 	if e.noIter {
 		return nil
 	}
 	it := o.Iter()
+	for _, pr := range probes {
+		var got []*fox.Route
+		for _, r := range it.Reverse(slices.Values([]string{pr.mm}), pr.host, pr.path) {
+			got = append(got, r)
+		}
+		if pr.want != nil && (len(got) != 1 || got[0] != pr.want) {
+			return fail("Iter.Reverse(%s, %q, %q) yields %d route(s) %v, the matching rules select %s", pr.mm, pr.host, pr.path, len(got), got, ptr(pr.want))
+		}
+		if pr.want == nil && len(got) != 0 {
+			return fail("Iter.Reverse(%s, %q, %q) yields %s, the model has no route matching that request", pr.mm, pr.host, pr.path, ptr(got[0]))
+		}
+	}
 	// All
 	seen := map[Key]bool{}
 	for mm, r := range it.All() {
@@ -360,6 +417,17 @@ func (s *Snap) recheck(e *Engine) error {
 	name := fmt.Sprintf("snapshot %s taken at step %d, re-observed at step %d", s.What, s.takenAt, e.Steps)
 	if err := e.observeWith(name, s.obs, s.frozen, s.hasLen, s.pool); err != nil {
 		return err
+	}
+	if s.txn != nil && (e.Steps+s.takenAt)%2 == 0 {
+		// a Snapshot of a read-only transaction is a point-in-time copy of THAT transaction's state, however long ago it was opened
+		sn := s.txn.Snapshot()
+		if sn == nil {
+			return fmt.Errorf("%s: Snapshot() of the read-only transaction returned nil", name)
+		}
+		if err := e.observeWith(name+", through a Snapshot() of it taken now", txnObserver{sn}, s.frozen, s.hasLen, s.pool); err != nil {
+			return err
+		}
+		e.Stat["snapshot-of-stale-readonly-txn"]++
 	}
 	now := s.probes(e)
 	if len(now) != len(s.lookups) {
